@@ -3,6 +3,8 @@ package c05
 import (
 	"fmt"
 	"math/big"
+	"os"
+	"path/filepath"
 	"runtime"
 	"strings"
 	"time"
@@ -10,6 +12,7 @@ import (
 	cfg "github.com/lianxiangcloud/linkchain/config"
 	"github.com/lianxiangcloud/linkchain/libs/common"
 	dbm "github.com/lianxiangcloud/linkchain/libs/db"
+	"github.com/lianxiangcloud/linkchain/libs/log"
 	"github.com/lianxiangcloud/linkchain/types"
 
 	"verif/h/internal/chainkit"
@@ -35,9 +38,16 @@ func runChain(c *core.Ctx) {
 	seedShim(c, "C05")
 	clearAppCache() // a case stands for one process: nothing compiled for another chain may survive into it
 	o := drawOpts(r)
-	g, err := chainkit.BuildGenesis(chainkit.GenesisOpts{Seed: r.Uint64(), NumAccounts: o.Accounts, Powers: []int64{10, 10, 10, 10}, Tokens: tokenIDs(), TokenBalance: big.NewInt(1000000000), MaxTxs: o.MaxTxs})
+	gopts := chainkit.GenesisOpts{Seed: r.Uint64(), NumAccounts: o.Accounts, Powers: []int64{10, 10, 10, 10}, Tokens: tokenIDs(), TokenBalance: big.NewInt(1000000000), MaxTxs: o.MaxTxs}
+	g, err := chainkit.BuildGenesis(gopts)
 	if err != nil {
 		c.Inconclusive("genesis: " + err.Error())
+		return
+	}
+	// the same genesis in the other storage mode (flat key/value state, the light node's default)
+	gkv, err := chainkit.BuildGenesisMode(gopts, false)
+	if err != nil {
+		c.Inconclusive("genesis (flat key/value mode): " + err.Error())
 		return
 	}
 	pcfg := cfg.DefaultMempoolConfig()
@@ -63,13 +73,35 @@ func runChain(c *core.Ctx) {
 	cold := mk(chainkit.NodeOpts{})
 	warm := mk(chainkit.NodeOpts{})
 	fast := mk(chainkit.NodeOpts{})
+	kvDir := filepath.Join(c.Scratch, "flatkv")
+	os.MkdirAll(kvDir, 0755)
+	flat, err := chainkit.OpenNodeMode(gkv, gkv.CloneDBs(), chainkit.NodeOpts{WrapDB: func(name string, db dbm.DB) dbm.DB {
+		if name == "state" {
+			return dirDB{db, kvDir} // the undo file kvState.wal lives in the state database's directory
+		}
+		return db
+	}}, false)
+	if err != nil {
+		c.Inconclusive("flat key/value node: " + err.Error())
+		return
+	}
+	if flat.UtxoStore != nil {
+		flat.UtxoStore.SetLogger(log.NewNopLogger())
+	}
+	wire(flat)
+	nodes = append(nodes, flat)
+	if gb, fb0 := P.BlockStore.LoadBlock(P.BlockStore.Height()), flat.BlockStore.LoadBlock(flat.BlockStore.Height()); gb == nil || fb0 == nil || gb.Hash() != fb0.Hash() {
+		cc0 := &chainCase{c: c, g: g}
+		cc0.viol("divergence/genesis-block-differs-between-storage-modes", "the genesis block (state hash of the genesis allocation) built in trie mode and in flat key/value mode differ", nil)
+		return
+	}
 	w := newWorld(r, g, P, tokenIDs())
 	w.hostile, w.smallUTXO = o.Hostile, o.UTXOSize < 100
 	if o.Hostile {
 		c.Count("hostile_chains", 1)
 	}
 	cc := &chainCase{c: c, w: w, g: g}
-	reps := []*replica{{"cold", cold}, {"warm", warm}, {"fastsync", fast}, {"proposer-self", P}}
+	reps := []*replica{{"cold", cold}, {"warm", warm}, {"fastsync", fast}, {"flatkv", flat}, {"proposer-self", P}}
 
 	lastCommit := chainkit.NilCommit()
 	bigBlocks, execsMin := 0, 1<<30
@@ -235,7 +267,11 @@ func runChain(c *core.Ctx) {
 			if refPost == nil {
 				refPost = post
 			} else {
-				if !cc.compare(height, "post-commit", postComponents, refPost, post, kinds) {
+				pc := postComponents
+				if rp.kind == "flatkv" {
+					pc = postComponentsAnyMode // the flat store has no Merkle root
+				}
+				if !cc.compare(height, "post-commit", pc, refPost, post, kinds) {
 					return
 				}
 				c.Count("post_commit_comparisons", 1)
@@ -547,3 +583,11 @@ func wire(n *chainkit.Node) {
 	// consensus/state.go updateToStatus: the validator set that signs multi-signature transactions
 	n.App.SetLastChangedVals(n.Status.LastHeightValidatorsChanged, n.Status.Validators.Copy().Validators)
 }
+
+// dirDB gives a MemDB a directory (flat key/value state mode keeps its undo file next to the database).
+type dirDB struct {
+	dbm.DB
+	dir string
+}
+
+func (d dirDB) Dir() string { return d.dir }
